@@ -811,6 +811,10 @@ func Regex(ctx *context.Context, left, right value.Value) (value.Value, error) {
 // containing the address decides, and it matches unless that entry is negated.
 // An entry without a mask is a single host (/32 for IPv4, /128 for IPv6).
 func matchesAcl(acl value.Acl, ip net.IP) (bool, error) {
+	if acl.Value == nil {
+		// ACL typed local variable that has never been assigned: matches nothing
+		return false, nil
+	}
 	best := -1 // longest prefix length among the entries containing ip
 	matched := false
 	for _, entry := range acl.Value.CIDRs {
